@@ -77,8 +77,14 @@ func emitViews(c *ctx, years []int, extraTargets []int, allTargets bool) {
 		months := [][]interface{}{}
 		for m := 1; m <= 12; m++ {
 			var ml [][]int
-			p, _ := try(func() { ml = holList(HolidayUtil.GetHolidaysByYm(y, m)) })
-			months = append(months, []interface{}{y*100 + m, b2i(p), ml})
+			var ml2, ml3 [][]int
+			p, _ := try(func() {
+				ml = holList(HolidayUtil.GetHolidaysByYm(y, m))
+				// the string overload takes a prefix of a day key, with or without dashes
+				ml2 = holList(HolidayUtil.GetHolidays(fmt.Sprintf("%04d%02d", y, m)))
+				ml3 = holList(HolidayUtil.GetHolidays(fmt.Sprintf("%04d-%02d", y, m)))
+			})
+			months = append(months, []interface{}{y*100 + m, b2i(p), ml, ml2, ml3})
 			for d := 1; d <= 31; d++ {
 				if _, bad := safeSolar(y, m, d, 0, 0, 0); bad {
 					continue
@@ -95,9 +101,12 @@ func emitViews(c *ctx, years []int, extraTargets []int, allTargets bool) {
 				}
 			}
 		}
-		var yl [][]int
-		p, _ := try(func() { yl = holList(HolidayUtil.GetHolidaysByYear(y)) })
-		c.emit(obj{"ev": "C14Views", "y": y, "days": days, "months": months, "year": []interface{}{b2i(p), yl}})
+		var yl, yl2 [][]int
+		p, _ := try(func() {
+			yl = holList(HolidayUtil.GetHolidaysByYear(y))
+			yl2 = holList(HolidayUtil.GetHolidays(fmt.Sprintf("%04d", y)))
+		})
+		c.emit(obj{"ev": "C14Views", "y": y, "days": days, "months": months, "year": []interface{}{b2i(p), yl, yl2}})
 	}
 	// targets: every distinct target of the raw records + the extra ones
 	seen := map[int]bool{}
@@ -288,7 +297,12 @@ func c14Fix(c *ctx) {
 							nx = append(nx, []int{n, r.GetYear()*10000 + r.GetMonth()*100 + r.GetDay(), 0})
 						}
 					})
-					rows = append(rows, obj{"d": st.GetYear()*10000 + st.GetMonth()*100 + st.GetDay(), "nx": nx, "p": 0})
+					row := obj{"d": st.GetYear()*10000 + st.GetMonth()*100 + st.GetDay(), "nx": nx, "p": 0}
+					try(func() {
+						l := st.GetLunar()
+						row["sal"] = []int{st.GetSalaryRate(), l.GetMonth(), l.GetDay(), b2i(l.GetJieQi() == "清明")}
+					})
+					rows = append(rows, row)
 				}
 				c.emit(obj{"ev": "C14Work", "y": d / 10000, "rows": rows})
 			}
@@ -312,7 +326,10 @@ func c14NamesEpilogue(c *ctx, i, k int) {
 	fix := func(nms []string, segs [][]int) {
 		data := ""
 		for _, s := range segs {
-			if s[1] == 1 {
+			if s[1] == 1 && i%2 == 0 {
+				// what follows the remove mark is padding: here the record's own tail instead of zeros
+				data += fmt.Sprintf("%08d~1%08d", s[0], s[0])
+			} else if s[1] == 1 {
 				data += segRemove(s[0])
 			} else {
 				data += seg(s[0], s[2], s[3] == 1, s[4])
